@@ -301,6 +301,7 @@ func runBehaviour(steps []step, delta, salt int64, group string) (v verdict) {
 		v.divergence = "setup: " + err.Error()
 		return
 	}
+	r.group = module.TransactionGroupNormal
 	if group == "patch" {
 		r.group = module.TransactionGroupPatch
 	}
